@@ -611,6 +611,37 @@ func (ip *Interp) model2(fn *ssa.Function, name string, args []AV) (AV, bool) {
 				cur = kInt(0)
 			}
 		}
+		if strings.HasSuffix(recv.Type().String(), "atomic.Value") {
+			// Store, Swap and CompareAndSwap panic on nil and on a value whose dynamic type differs from the first one stored
+			dyn := func(v AV) string {
+				iv, ok := v.(*IfaceV)
+				if !ok {
+					ood("atomic.Value holding %s", avString(v))
+				}
+				if sym, isSym := iv.V.(*Sym); isSym && types.Identical(iv.T, types.Universe.Lookup("error").Type()) {
+					if sym.Kind == "" {
+						ood("atomic.Value holding an error whose dynamic type the model does not know")
+					}
+					return sym.Kind
+				}
+				return types.TypeString(iv.T, nil)
+			}
+			var nv AV
+			switch fn.Name() {
+			case "Store", "Swap":
+				nv = args[1]
+			case "CompareAndSwap":
+				nv = args[2]
+			}
+			if nv != nil {
+				if isNilAV(nv) {
+					rtPanic("sync/atomic: %s of nil value into Value", strings.ToLower(fn.Name()))
+				}
+				if !isNilAV(cur) && dyn(cur) != dyn(nv) {
+					rtPanic("sync/atomic: %s of inconsistently typed value into Value (%s after %s)", strings.ToLower(fn.Name()), dyn(nv), dyn(cur))
+				}
+			}
+		}
 		switch fn.Name() {
 		case "Load":
 			return cur, true
@@ -659,6 +690,10 @@ func (ip *Interp) timeOf(v AV) *TimeV {
 }
 
 // errVal makes a non-nil error whose Error() is msg (resolved by the interpreter itself).
+func (ip *Interp) errValKind(kind, msg string) AV {
+	return &IfaceV{T: types.Universe.Lookup("error").Type(), V: &Sym{Name: "error:" + msg, Kind: kind}}
+}
+
 func (ip *Interp) errVal(msg string) AV {
 	return &IfaceV{T: types.Universe.Lookup("error").Type(), V: &Sym{Name: "error:" + msg}}
 }
